@@ -27,10 +27,11 @@ func callsIn(fn *ssa.Function) []ssa.CallInstruction {
 }
 
 // calleeID gives a stable, position-free description of what a call invokes:
-//   static function/method: its fname (module) or "pkgpath.Name" / "(recv).Name" (external)
-//   interface invoke:       "invoke <iface type>.<Method>"
-//   builtin:                "builtin <name>"
-//   dynamic:                "dynamic"
+//
+//	static function/method: its fname (module) or "pkgpath.Name" / "(recv).Name" (external)
+//	interface invoke:       "invoke <iface type>.<Method>"
+//	builtin:                "builtin <name>"
+//	dynamic:                "dynamic"
 func calleeID(ci ssa.CallInstruction) string {
 	cc := ci.Common()
 	if cc.IsInvoke() {
